@@ -39,7 +39,7 @@ static const uint64_t BUMP_LO = 33ull << 40;        // un-hinted placements star
 static const uint64_t SEG = 32ull << 20;
 
 struct Region {
-  uint64_t start, len; uint32_t id; int vt, op; uint64_t call_no; bool donated; bool unmap_refused;
+  uint64_t start, len; uint32_t id; int vt, op; uint64_t call_no; bool donated; bool unmap_refused; uint64_t hp = 0;   // hp: huge page size of a MAP_HUGETLB mapping (0: ordinary pages)
   std::vector<uint8_t> prot;   // per page: 1 = read/write, 0 = none
 };
 static std::map<uint64_t, Region> g_regions;     // by start
@@ -174,6 +174,7 @@ size_t os_resident_bytes(uint64_t start, uint64_t len) {
       auto it = g_regions.upper_bound(p); if (it == g_regions.end() || it->second.start >= end) break; p = it->second.start; continue;
     }
     uint64_t e = std::min(end, r->start + r->len);
+    if (r->hp) { n += (size_t)(e - p); p = e; continue; }     // explicit huge pages are populated at mmap time and stay resident
     while (p < e) {
       uint64_t chunk = std::min<uint64_t>(e - p, (uint64_t)sizeof(vec) * PAGE);
       if (mincore((void*)p, chunk, vec) == 0) { for (uint64_t i = 0; i < chunk / PAGE; i++) if (vec[i] & 1) n += PAGE; }
@@ -187,6 +188,7 @@ std::vector<OsRegion> os_regions() {
   for (auto& kv : g_regions) { const Region& r = kv.second; v.push_back(OsRegion{r.start, r.len, r.id, r.vt, r.op, r.call_no, r.donated}); }
   return v;
 }
+bool os_is_hugetlb(uint64_t addr) { Region* r = region_containing(addr); return r && r->hp != 0; }
 bool os_region_unmap_refused(uint64_t start) { Region* r = region_containing(start); return r && r->unmap_refused; }
 
 const char* os_describe_addr(const void* p, char* buf, size_t n) {
@@ -245,10 +247,18 @@ static void region_remove_range(uint64_t a, uint64_t len) {
 }
 
 // ---- placement --------------------------------------------------------------------
-static uint64_t choose_address(uint64_t hint, uint64_t len) {
+static uint64_t choose_address(uint64_t hint, uint64_t len, uint64_t hp = 0) {
   const int pol = g_cfg.place_policy;
   const bool honour = (pol == 0 || pol == 1);
-  if (hint != 0 && honour && (hint % PAGE) == 0 && range_free(hint, len)) return hint;
+  if (hint != 0 && honour && (hint % (hp ? hp : PAGE)) == 0 && range_free(hint, len)) return hint;
+  if (hp) {   // huge page mappings are aligned to their page size
+    for (int tries = 0; tries < 64; tries++) {
+      uint64_t base = (g_bump + SEG + hp - 1) & ~(hp - 1);
+      g_bump = base + len + PAGE * 16;
+      if (range_free(base, len)) return base;
+    }
+    return 0;
+  }
   bool unaligned = (pol == 2) || (pol == 1 && g_orng.chance(g_cfg.place_unaligned_p));
   for (int tries = 0; tries < 64; tries++) {
     uint64_t base = (g_bump + SEG - 1) & ~(SEG - 1);
@@ -267,11 +277,17 @@ extern "C" void* sim_mmap(void* addr, size_t len, int prot, int flags, int fd, o
   if (l == 0) { errno = EINVAL; log_call(OS_MMAP, (uint64_t)(uintptr_t)addr, len, 0, EINVAL, false); return MAP_FAILED; }
   int inj = fault_check(OS_MMAP);
   if (inj) { errno = inj; log_call(OS_MMAP, (uint64_t)(uintptr_t)addr, len, 0, inj, true); return MAP_FAILED; }
+  uint64_t hp = 0;
 #ifdef MAP_HUGETLB
-  if (flags & MAP_HUGETLB) { errno = ENOMEM; log_call(OS_MMAP, (uint64_t)(uintptr_t)addr, len, 0, ENOMEM, false); return MAP_FAILED; }  // no hugetlbfs pages configured
+  if (flags & MAP_HUGETLB) {
+    int lg = (flags >> MAP_HUGE_SHIFT) & 0x3f; hp = lg ? (1ull << lg) : (2ull << 20);
+    const bool avail = (hp == (2ull << 20) && g_cfg.hugetlb >= 1) || (hp == (1ull << 30) && g_cfg.hugetlb >= 2);
+    if (!avail) { errno = ENOMEM; log_call(OS_MMAP, (uint64_t)(uintptr_t)addr, len, 0, ENOMEM, false); return MAP_FAILED; }  // no (such) hugetlbfs pages configured
+    l = (len + hp - 1) & ~(hp - 1);       // the kernel rounds the length of a huge page mapping up
+  }
 #endif
   if (l > (8ull << 40)) { errno = ENOMEM; log_call(OS_MMAP, (uint64_t)(uintptr_t)addr, len, 0, ENOMEM, false); return MAP_FAILED; }   // address-space limit of the simulated machine
-  uint64_t base = choose_address((uint64_t)(uintptr_t)addr, l);
+  uint64_t base = choose_address((uint64_t)(uintptr_t)addr, l, hp);
   if (base == 0) { errno = ENOMEM; log_call(OS_MMAP, (uint64_t)(uintptr_t)addr, len, 0, ENOMEM, false); return MAP_FAILED; }
   bool rw = (prot & PROT_WRITE) != 0;
   void* p = mmap((void*)base, l, rw ? (PROT_READ | PROT_WRITE) : PROT_NONE, MAP_PRIVATE | MAP_ANONYMOUS | MAP_NORESERVE | MAP_FIXED_NOREPLACE, -1, 0);
@@ -280,7 +296,8 @@ extern "C" void* sim_mmap(void* addr, size_t len, int prot, int flags, int fd, o
     sim_infra_error("backing mmap at 0x%llx len 0x%llx failed (errno %d)", (unsigned long long)base, (unsigned long long)l, e);
   }
   if ((base % SEG) != 0) probe(PR_unaligned_mmap_trim, 0);
-  region_add(base, l, rw, false);
+  Region& nr = region_add(base, l, rw, false); nr.hp = hp;
+  if (hp) probe(PR_hugetlb_mmap);
   log_call(OS_MMAP, (uint64_t)(uintptr_t)addr, len, base, 0, false);
   return p;
 }
@@ -293,6 +310,7 @@ extern "C" int sim_munmap(void* addr, size_t len) {
     for_pages(a, l, [&](Region& r, uint64_t, uint64_t) { r.unmap_refused = true; });
     errno = inj; log_call(OS_MUNMAP, a, len, 0, inj, true); return -1;
   }
+  { Region* hr = region_containing(a); if (hr && hr->hp && ((a % hr->hp) != 0 || (l % hr->hp) != 0)) { errno = EINVAL; log_call(OS_MUNMAP, a, len, 0, EINVAL, false); return -1; } }   // huge page mappings are unmapped in whole huge pages
   // every page of the range must belong to a live simulated mapping that the allocator obtained itself
   bool ok = os_in_window(addr) && range_covered(a, l);
   if (ok) for_pages(a, l, [&](Region& r, uint64_t, uint64_t) { if (r.donated) ok = false; });
@@ -358,6 +376,14 @@ extern "C" int sim_madvise(void* addr, size_t len, int advice) {
     sim_violation("foreign_os_call", "madvise(0x%llx, 0x%llx, %s) touches memory that is not mapped by the allocator: %s", (unsigned long long)a, (unsigned long long)len, os_kind_names[kind], d);
   }
   if (g_os_purge_hook) g_os_purge_hook(kind, a, l);
+  { Region* hr = region_containing(a);
+    if (hr && hr->hp) {   // hugetlb mapping (Linux >= 5.18 semantics): only huge pages that are covered completely are dropped (and read as zero afterwards)
+      probe(PR_hugetlb_madvise);
+      uint64_t s0 = (a + hr->hp - 1) & ~(hr->hp - 1), e0 = (a + l) & ~(hr->hp - 1);
+      if (e0 > s0 && madvise((void*)s0, e0 - s0, MADV_DONTNEED) != 0) sim_infra_error("backing madvise failed errno %d", errno);
+      log_call(kind, a, len, e0 > s0 ? 1 : 0, 0, false);
+      return 0;
+    } }
   bool discard = true;
   if (kind == OS_MADV_FREE) {
     discard = (g_cfg.madv_free_mode == 1) || (g_cfg.madv_free_mode == 2 && g_orng.chance(0.5));
